@@ -745,12 +745,13 @@ Proof.
   - split; [auto|constructor].
   - (* OInit *)
     destruct (slots s sl =? -1); cbn [orb]; [split; [auto|repeat constructor]|].
-    destruct (any_on s (slots s sl) (fun h => live h && is_raw h)) eqn:Har; cbn [orb]; [split; [auto|repeat constructor]|].
-    destruct (strict s && any_on s (slots s sl) live); [split; [auto|repeat constructor]|].
-    pose proof (no_live_raw_on _ _ Har) as Hno.
-    unfold poll_init, fd_exists. destruct (reg s (slots s sl)) eqn:Hrn.
-    + cbn [fst snd]. split; [|repeat constructor]. apply KI_append; auto.
-    + destruct (KI_check_fd s (slots s sl) K Hrn Hno) as [K1 Hrc].
+    unfold poll_init, fd_exists. destruct (reg s (slots s sl)) eqn:Hrn; cbn [negb andb orb].
+    + destruct (strict s && any_on s (slots s sl) live); [split; [auto|repeat constructor]|].
+      cbn [fst snd]. split; [|repeat constructor]. apply KI_append; auto.
+    + destruct (any_on s (slots s sl) (fun h => live h && is_raw h)) eqn:Har; cbn [orb]; [split; [auto|repeat constructor]|].
+      destruct (strict s && any_on s (slots s sl) live); [split; [auto|repeat constructor]|].
+      pose proof (no_live_raw_on _ _ Har) as Hno.
+      destruct (KI_check_fd s (slots s sl) K Hrn Hno) as [K1 Hrc].
       pose proof (io_check_fd_same s (slots s sl)) as X. cbv zeta in X.
       destruct (io_check_fd s (slots s sl)) as [s1 rc]. cbn [fst snd] in *.
       destruct X as [Xh [_ [_ [_ [_ [_ [_ [_ [_ [_ [Xf _]]]]]]]]]]].
@@ -794,6 +795,8 @@ Proof.
     eapply KI_same; [..|exact K]; reflexivity.
   - (* OActive *)
     case_all; cbn [fst snd]; (split; [auto|repeat constructor]).
+  - (* OForeign *)
+    destruct (_ =? _); cbn [fst snd]; (split; [auto|repeat constructor]).
   - split; [auto|constructor].
 Qed.
 (* ---- the registration loop ------------------------------------------------------------
